@@ -17,7 +17,8 @@ from confirm_seed import ENV, sh, verdict  # noqa: E402
 
 
 def main():
-    pref = sys.argv[1:]
+    pref = [a for a in sys.argv[1:] if not a.startswith("--")]
+    stale_only = "--stale" in sys.argv  # only seeds whose head_recheck is not 'caught'/'no-longer...' at the current HEAD
     head = subprocess.check_output(["git", "-C", "/repo", "rev-parse", "--short", "HEAD"], text=True).strip()
     names = sorted(os.listdir("/verif/seeded"))
     out = []
@@ -30,14 +31,27 @@ def main():
             continue
         meta = json.load(open(mp))
         pid = meta["property"]
+        hr = meta.get("head_recheck", {})
+        if stale_only and hr.get("head") == head and hr.get("status") in ("caught", "no-longer-a-defect-on-head"):
+            continue
         W = "/var/tmp/verif-seedre-%s-%d" % (name, os.getpid())
         subprocess.check_call(["git", "-C", "/repo", "worktree", "add", "-q", "--detach", W, "HEAD"])
         res = {"head": head}
         try:
             shutil.copytree(d, os.path.join(W, "SEED"))
-            rc, o = sh("git apply SEED/patch.diff && go build ./...", W)
+            rc, o = sh("git apply SEED/patch.diff", W)
+            rcb = 0
+            if rc == 0:
+                # a build failure for environmental reasons (interrupted run, cache) must not be filed as a conflict
+                for attempt in range(2):
+                    rcb, ob = sh("go build ./...", W)
+                    if rcb == 0:
+                        break
             if rc != 0:
                 res["status"] = "patch-conflicts-with-later-commit"
+            elif rcb != 0:
+                res["status"] = "inconclusive"
+                res["note"] = "go build failed: " + ob[-300:]
             else:
                 demo = re.sub(r"/tmp/seed\d*-%s" % pid, W, meta["demo_cmd"])
                 rc, o = sh(demo, W)
